@@ -5,10 +5,12 @@ import (
 	"fmt"
 	"os"
 	"sort"
+	"syscall"
 	"time"
 
 	abci "github.com/cometbft/cometbft/abci/types"
 	cmtproto "github.com/cometbft/cometbft/proto/tendermint/types"
+	dbm "github.com/cosmos/cosmos-db"
 )
 
 // Recording is a history of finalised blocks that can be re-executed elsewhere:
@@ -200,4 +202,110 @@ func (n *Node) reinitIfEmpty() error {
 	}
 	_, err := n.InitChain()
 	return err
+}
+
+// KillPoint is a crash point of the kill-mode replica: the process sends itself SIGKILL there.
+//
+//	phase "before": right before FinalizeBlock of Height
+//	phase "after":  after FinalizeBlock returned, before Commit is called
+//	phase "during": DelayUS microseconds after Commit was called (the store may be half written)
+//	phase "done":   right after Commit returned
+type KillPoint struct {
+	Height  int64  `json:"h"`
+	Phase   string `json:"phase"`
+	DelayUS int    `json:"delay_us"`
+}
+
+// KillLine is one line of the kill-mode replica's log (appended before the step it announces is taken).
+type KillLine struct {
+	Kind    string   `json:"kind"` // start | outcome | committed | end
+	Height  int64    `json:"h"`
+	Outcome *Outcome `json:"outcome,omitempty"`
+	Err     string   `json:"err,omitempty"`
+}
+
+func killSelf() {
+	_ = syscall.Kill(os.Getpid(), syscall.SIGKILL)
+	time.Sleep(time.Minute) // never returns: the signal is delivered first
+}
+
+// ReplayKill continues the recorded history on the goleveldb database in dbDir (created when missing) from whatever
+// height the database holds, appends what it observes to logFile, and kills its own process with SIGKILL at kp
+// (nil: run to the end). The execution client of a restarted node still knows the blocks it was given before.
+func ReplayKill(r *Recording, dbDir, logFile string, kp *KillPoint) error {
+	w, err := worldFromRecording(r, true)
+	if err != nil {
+		return err
+	}
+	lf, err := os.OpenFile(logFile, os.O_APPEND|os.O_CREATE|os.O_WRONLY, 0o644)
+	if err != nil {
+		return err
+	}
+	defer lf.Close()
+	emit := func(l KillLine) {
+		bz, _ := json.Marshal(l)
+		lf.Write(append(bz, '\n'))
+	}
+	db, err := dbm.NewGoLevelDB("application", dbDir, nil)
+	if err != nil {
+		emit(KillLine{Kind: "end", Err: "open database: " + err.Error()})
+		return err
+	}
+	n, err := w.OpenNode(0, db, dbDir)
+	if err != nil {
+		emit(KillLine{Kind: "end", Err: "open node: " + err.Error()})
+		return err
+	}
+	if err := n.reinitIfEmpty(); err != nil {
+		emit(KillLine{Kind: "end", Err: "init chain: " + err.Error()})
+		return err
+	}
+	last := n.App.LastBlockHeight()
+	emit(KillLine{Kind: "start", Height: last})
+	for _, bz := range r.Blocks {
+		var req abci.RequestFinalizeBlock
+		if err := req.Unmarshal(bz); err != nil {
+			return err
+		}
+		if req.Height <= last {
+			// the execution client kept what it had been given before the crash
+			if p := DecodeBlockTx(w, req.Txs); p != nil {
+				w.EL.KnowBlock(PayloadED(p))
+			}
+			continue
+		}
+		here := kp != nil && kp.Height == req.Height
+		if here && kp.Phase == "before" {
+			killSelf()
+		}
+		n.EL.SetPhase("finalize")
+		from := n.EL.NCalls()
+		fb, ferr := n.Finalize(&req)
+		o := OutcomeOf(req.Height, fb, n.EL.Calls(from), ferr)
+		emit(KillLine{Kind: "outcome", Height: req.Height, Outcome: &o})
+		if ferr != nil {
+			emit(KillLine{Kind: "end", Height: req.Height})
+			return nil
+		}
+		if here && kp.Phase == "after" {
+			killSelf()
+		}
+		if here && kp.Phase == "during" {
+			time.AfterFunc(time.Duration(kp.DelayUS)*time.Microsecond, func() { _ = syscall.Kill(os.Getpid(), syscall.SIGKILL) })
+		}
+		if _, err := n.App.Commit(); err != nil {
+			emit(KillLine{Kind: "end", Height: req.Height, Err: "commit: " + err.Error()})
+			return err
+		}
+		emit(KillLine{Kind: "committed", Height: req.Height})
+		if here && kp.Phase == "done" {
+			killSelf()
+		}
+		if here && kp.Phase == "during" {
+			// the timer has not fired although Commit returned: wait for it, so that every planned point is a crash
+			time.Sleep(time.Duration(kp.DelayUS)*time.Microsecond + 50*time.Millisecond)
+		}
+	}
+	emit(KillLine{Kind: "end", Height: n.App.LastBlockHeight()})
+	return nil
 }
